@@ -776,6 +776,19 @@ class Interp:
         pat, it, body, _ = fl
         s = self.to_stream(self.eval(it, env))
         dom = s[1]
+        if s[2][0] == "oneof" and not s[3]:
+            # a loop over a literal array: unroll
+            for el in s[2][1]:
+                self.bind(pat, el, env)
+                try:
+                    self.eval(body, env)
+                except Exit as e:
+                    if e.kind == "continue":
+                        continue
+                    if e.kind == "break":
+                        break
+                    raise
+            return UNIT
         self.loop_stack.append(dom)
 
         def run():
